@@ -851,7 +851,11 @@ pub fn misuse_checks(sim: &mut Sim, ex: &mut Exercised) -> u64 {
     // the start status), and the engine under test must not be touched before the illegal calls
     let mut reference_copy = sim.fork();
     let q0 = queries(&mut reference_copy.eng);
-    let hist0 = if q0.0 { reference_copy.eng.new_history().ok() } else { None };
+    let hist0 = if q0.0 {
+        std::panic::catch_unwind(std::panic::AssertUnwindSafe(|| reference_copy.eng.new_history().ok())).unwrap_or(None)
+    } else {
+        None
+    };
     let outs0: Vec<Option<String>> = (0..n)
         .map(|j| match reference_copy.eng.get_job_output(&cfg.graph.jobs[j].id) {
             JobOutputResult::Done(s) => Some(s),
@@ -924,9 +928,14 @@ pub fn misuse_checks(sim: &mut Sim, ex: &mut Exercised) -> u64 {
                 out.push(viol("C20", "side-effect-output", format!("{} changed job outputs", name)).tag("call", &kind));
             }
             if q1.0 {
-                let h1 = f.eng.new_history().ok();
-                if h1 != hist0 {
-                    out.push(viol("C20", "side-effect-history", format!("{} changed the history", name)).tag("call", &kind));
+                // the engine may be left in a state in which new_history() panics: that is a side effect too
+                match std::panic::catch_unwind(std::panic::AssertUnwindSafe(|| f.eng.new_history().ok())) {
+                    Ok(h1) => {
+                        if h1 != hist0 {
+                            out.push(viol("C20", "side-effect-history", format!("{} changed the history", name)).tag("call", &kind));
+                        }
+                    }
+                    Err(_) => out.push(viol("C20", "side-effect-history-panics", format!("after the rejected {} new_history() panics", name)).tag("call", &kind)),
                 }
             }
         }
